@@ -57,6 +57,9 @@ enum Op {
     Exit,
     CloneSpan { slot: u8, to: u8 },
     Close { slot: u8 },
+    /// like Close, but the last reference is released by a destructor that runs while a panic
+    /// (caught right away) unwinds the stack
+    CloseUnwinding { slot: u8 },
 }
 #[derive(Clone, Debug, Serialize, Deserialize)]
 struct Case {
@@ -362,6 +365,29 @@ fn workload(d: &Dispatch, ops: &[Op], marks: &mut Vec<(Did, u64)>) {
                     _ => Did::Skipped,
                 }
             }
+            Op::CloseUnwinding { slot } => {
+                let s = slot as usize % NSLOT;
+                match slots[s].clone() {
+                    Some(id) if !entered.contains(&id) => {
+                        slots[s] = None;
+                        struct Releases<'a>(&'a Dispatch, Option<span::Id>);
+                        impl Drop for Releases<'_> {
+                            fn drop(&mut self) {
+                                if let Some(id) = self.1.take() {
+                                    self.0.try_close(id);
+                                }
+                            }
+                        }
+                        let r = std::panic::catch_unwind(std::panic::AssertUnwindSafe(|| {
+                            let _g = Releases(d, Some(id));
+                            panic!("scripted panic over a span handle");
+                        }));
+                        assert!(r.is_err());
+                        Did::Close
+                    }
+                    _ => Did::Skipped,
+                }
+            }
         };
         marks.push((did, next_seq()));
     }
@@ -625,6 +651,20 @@ fn run_case(case: &Case) -> Outcome {
                 }
             }
         }
+        // whole-run: by the end of the teardown every handle is gone, so on a span registry every
+        // span that was created has been closed, once, for every layer
+        if case.base == Base::Registry {
+            let created = bm.iter().filter(|m| matches!(m.0, Did::NewSpan { created: true })).count();
+            for (l, calls) in raw.iter().enumerate() {
+                let closes = calls.iter().filter(|c| c.kind == LKind::Close).count();
+                if closes != created {
+                    return Outcome::fail(
+                        if closes < created { "layer missed a notification: Some(Close)" } else { "layer notified more than once (or after a veto): Some(Close)" },
+                        format!("leaf {l} saw {closes} on_close calls for {created} spans whose handles are all gone; case = {}", serde_json::to_string(case).unwrap_or_default()),
+                    );
+                }
+            }
+        }
         // whole-run: every leaf has the same data notifications; one RegisterDispatch; N callsites
         let seqs: Vec<Vec<(String, u64, u64, i64)>> = bn.iter().map(|l| l.iter().filter(|c| !matches!(c.0.as_str(), "RegisterCallsite" | "Enabled" | "EventEnabled" | "RegisterDispatch")).map(|c| (c.0.clone(), c.1, c.2, c.3)).collect()).collect();
         for l in 1..seqs.len() {
@@ -713,6 +753,7 @@ impl Property for C09 {
             2 => Just(Op::Exit),
             2 => (s(), s()).prop_map(|(slot, to)| Op::CloneSpan { slot, to }),
             2 => s().prop_map(|slot| Op::Close { slot }),
+            1 => s().prop_map(|slot| Op::CloseUnwinding { slot }),
         ];
         let cfg = proptest::collection::vec((proptest::option::weighted(0.15, 1u8..=5), proptest::option::weighted(0.15, 0i64..N as i64)).prop_map(|(veto_level, veto_cs)| LeafCfg { veto_level, veto_cs }), 5);
         let max = tier.pick(25usize, 40usize);
